@@ -338,3 +338,40 @@ def rand_bytes(rng, n):
 
 def hexs(b):
     return b.hex() if b else "-"
+
+
+# ------------------------------------------------------------------ structural correspondence: process-wide mutable state
+def mutable_statics(root):
+    """process-wide / thread-wide mutable state declared in the crates' sources (unit-test modules excluded):
+    `static mut X`, `static X: T` whose type has interior mutability (Atomic*, Mutex, RwLock, Once*, Lazy*, *Cell), and
+    `thread_local!` blocks.  The Lean model represents every generator as a value and every operation as a function of its
+    arguments; this list is what the code has beyond that.  Returns {(crate, name, declaration)}."""
+    import glob, re
+    out = set()
+    for f in sorted(glob.glob(os.path.join(root, "rand_*", "src", "**", "*.rs"), recursive=True)):
+        try:
+            txt = open(f).read()
+        except OSError:
+            continue
+        txt = re.sub(r"//[^\n]*", "", txt)
+        txt = re.sub(r"/\*.*?\*/", "", txt, flags=re.S)
+        txt = re.split(r"#\[cfg\(test\)\]\s*mod\s+\w+\s*\{", txt)[0]
+        crate = os.path.relpath(f, root).split(os.sep)[0]
+        for m in re.finditer(r"\bstatic\s+(mut\s+)?([A-Za-z_]\w*)\s*:\s*([^=;]+)", txt):
+            mut, name, ty = m.group(1), m.group(2), " ".join(m.group(3).split())
+            if mut or re.search(r"Atomic|Mutex|RwLock|Once|Lazy|Cell|Condvar", ty):
+                out.add((crate, name, f"static {'mut ' if mut else ''}{name}: {ty}"))
+        for m in re.finditer(r"\bthread_local!\s*[\({\[]", txt):
+            body = txt[m.end():m.end() + 400]
+            mm = re.search(r"static\s+([A-Za-z_]\w*)\s*:\s*([^=;]+)", body)
+            name = mm.group(1) if mm else "?"
+            out.add((crate, name, f"thread_local! static {name}: {' '.join(mm.group(2).split()) if mm else '?'}"))
+    return out
+
+def new_mutable_statics():
+    """mutable statics of the current tree that the pinned sources (the tree the model was written and proved for) do not have"""
+    pin = os.path.join(VERIF, "pinned_src")
+    if not os.path.isdir(pin):
+        return []
+    have = {(c, n) for c, n, _ in mutable_statics(pin)}
+    return sorted(x for x in mutable_statics(REPO) if (x[0], x[1]) not in have)
